@@ -204,6 +204,9 @@ def _expand(nodes, b, d):
         elif n[0] == 's':
             sub = parse_ids(d[n[1]])
             out.append(['q', n[1], _expand([_strip(x) for x in sub], b, d)])
+        elif n[0] == 'o' and 205000 < n[1] <= 205255:
+            # 205YYY: YYY characters inserted as a data field
+            out.append(['e', n[1], ('CHARACTERS', STRING_UNIT, 0, 0, (n[1] % 1000) * 8)])
         else:
             raise ValueError(n)
     return out
@@ -276,7 +279,7 @@ def write_message(spec, tables=None):
         ids = list(spec['raw_ids'])
         nsub = spec.get('nsub', 1)
         return _frame(spec, ids, bytes.fromhex(spec['raw_data']), nsub, comp, pads, None, {})
-    ids = flat_ids(spec['template'])
+    ids = list(spec['ids_override']) if spec.get('ids_override') else flat_ids(spec['template'])
     tree = _expand(spec['template'], b, d)
     nsub = len(spec['subsets'])
 
